@@ -779,6 +779,33 @@ func (h *c03Case) createPod(t *rapid.T) *c03Pod {
 			}
 		}
 	}
+	if h.parentPods && own.IsParent && pd.NonPre && rapid.Bool().Draw(t, "aimAtParentMin") {
+		// aim at the boundary the parent's min draws: the request fits next to the parent's own non-preemptible pods
+		// but not next to what its children hold as well
+		sub, self := h.modelUsed(own, true), c03Res{}
+		for _, n := range h.podNames() {
+			if x := h.pods[n]; x.holds() && x.NonPre && x.Quota == own.Name {
+				for _, d := range own.Dims {
+					self[d] += x.Req[d]
+				}
+			}
+		}
+		for _, d := range own.MinDims {
+			lo, hi := own.Min[d]-sub[d]+c03Grid(d), own.Min[d]-self[d]
+			if sub[d] > self[d] && lo > 0 && lo <= hi {
+				for i := range split {
+					split[i][d] = 0
+				}
+				split[0][d], pd.Req[d] = lo, lo
+			} else if pd.Req[d] > hi { // stay inside min elsewhere, so that this boundary is the one that decides
+				for i := range split {
+					split[i][d] = 0
+				}
+				pd.Req[d] = 0
+			}
+		}
+		h.c.Class("pod-aimed-at-parent-min-boundary")
+	}
 	for _, d := range c03Universe {
 		if pd.Req[d] == 0 && rapid.IntRange(0, 7).Draw(t, "zeroKey-"+string(d)) == 0 {
 			pd.ZeroKeys = append(pd.ZeroKeys, d)
@@ -1493,7 +1520,7 @@ func (h *c03Case) schedule(t *rapid.T, pd *c03Pod, midCycle func()) {
 		}
 		if sig != "" {
 			kind := sig
-			if !strings.Contains(sig, "default-or-system") {
+			if !strings.Contains(sig, "default-or-system") && !(own.IsParent && sig == "admit:non-preemptible-over-min") {
 				sig = h.windowSig(own, sig)
 			}
 			if h.c.Violation(t, sig, "[%s] pod %s (request %s, nonPreemptible=%v) admitted into %s although %v;%s %s", kind, pd.Name, c03Str(pd.Req), pd.NonPre,
@@ -1891,4 +1918,7 @@ func TestVerifC03ParentPodsRuntimeOffParentOn(t *testing.T) {
 }
 func TestVerifC03ParentPodsRuntimeOnParentOff(t *testing.T) {
 	c03RunY(t, "runtime-on/parent-off+parent-pods", true, false, false, false, true)
+}
+func TestVerifC03ParentPodsRuntimeOffParentOff(t *testing.T) {
+	c03RunY(t, "runtime-off/parent-off+parent-pods", false, false, false, false, true)
 }
